@@ -190,6 +190,10 @@ func (state inSession) handleResendRequest(session *session, msg *Message) (next
 	}
 
 	beginSeqNo := beginSeqNoField
+	if beginSeqNo < 1 {
+		// No message carries a number below 1: the replay (and its leading gap fill) starts at 1.
+		beginSeqNo = 1
+	}
 
 	var endSeqNoField FIXInt
 	if err = msg.Body.GetField(tagEndSeqNo, &endSeqNoField); err != nil {
